@@ -6,7 +6,7 @@
    has id last. Dirty = a DBI was created, Drop was called, or some DBI content changed
    (approximation: a put followed by a delete of the same key inside one transaction also dirties in LMDB;
    it needs duplicate keys in one snapshot DBI and is not generated).
-   dbi_options.override_create_flags is not modelled (assumed unset). No proofs here. *)
+   No proofs here. *)
 From LS Require Import Base.Bytes Base.Res Header.Model Merge.Model Strategy.Model DupSort.Model Shadow.Model.
 Open Scope N_scope.
 
@@ -19,7 +19,15 @@ Record sdbi := mkSDbi { sd_name : bytes; sd_flags : N; sd_transform : bytes; sd_
 Record snapshot := mkSnap { sn_fmt : N; sn_compat : N; sn_dbis : list sdbi }.
 
 Record icfg := mkICfg { i_native : bool; i_duphack : bool; i_padding : bool; i_receive_only : bool;
-                        i_cancelled : bool  (* the context is already cancelled when the transaction starts *) }.
+                        i_cancelled : bool; (* the context is already cancelled when the transaction starts *)
+                        i_override : list (bytes * N) (* dbi_options: DBI name -> override_create_flags *) }.
+
+(* Go: s.lc.DBIOptions[dbiName].OverrideCreateFlags — looked up afresh for every DBI of a snapshot *)
+Fixpoint override_of (l : list (bytes * N)) (name : bytes) : option N :=
+  match l with
+  | [] => None
+  | (n, f) :: l' => if beqb n name then Some f else override_of l' name
+  end.
 
 Definition sync_prefix : bytes := [95;115;121;110;99].                                  (* "_sync" *)
 Definition shadow_prefix : bytes := [95;115;121;110;99;95;115;104;97;100;111;119;95].  (* "_sync_shadow_" *)
@@ -165,13 +173,18 @@ Definition load_one (c : icfg) (fmt compat T cutoff : N) (d : sdbi) (st : tstate
           if i_native c then Ok st
           else match find_dbi (fst st) name with
                | Some _ => Ok st
-               | None => if fmt <? 3 then Err ERefused
-                         else Ok (set_dbi (fst st) name (mkDbi (sd_flags d) []), true)
+               | None =>
+                   match override_of (i_override c) name with
+                   | Some f => Ok (set_dbi (fst st) name (mkDbi f []), true)
+                   | None => if fmt <? 3 then Err ERefused
+                             else Ok (set_dbi (fst st) name (mkDbi (sd_flags d) []), true)
+                   end
                end in
         match r1 with
         | Ok st1 =>
             let target := if i_native c then name else shadow_prefix ++ name in
-            let tflags := if i_native c then sd_flags d else N.land (sd_flags d) IntegerKeyFlag in
+            let cflags := match override_of (i_override c) name with Some f => f | None => sd_flags d end in
+            let tflags := if i_native c then cflags else N.land cflags IntegerKeyFlag in
             let '(t, created) := match find_dbi (fst st1) target with
                                  | Some t => (t, false)
                                  | None => (mkDbi tflags [], true)
